@@ -60,6 +60,11 @@ def check_exclusion(ctx, e, pd):
     d, p, rhos = e["d"], e["p"], e["rhos"]
     sig = (e["n"], d, e["form"], field, e["pk"], pd)
     nt = e["cplx"] or e["form"].startswith("dm") or e["pk"] != 0
+    if e["pk"] == 0:  # the prior omitted means the uniform prior over the n states (n and the dimension differ in most ensembles)
+        res0 = _solve(ctx, state_exclusion, _fresh(e["inp"]), strategy="min_error", primal_dual=pd, mech=f"crash:state_exclusion-min_error-{pd}[{field}]")
+        if res0 is not None:
+            ctx.check("O2:range", abs(float(np.real(res0[0])) - val) <= TOLV, dev=abs(float(np.real(res0[0])) - val), tol=TOLV, sig=sig + ("prior-omitted", e["n"] == d), nt=e["n"] != d,
+                      mech="state_exclusion:prior-omitted-differs-from-uniform-prior", detail={"n": e["n"], "d": d, "omitted": res0[0], "uniform": val})
     neg, comp, hdev = certs.povm_defect(ms, d)
     ctx.check("O1:povm-valid", max(neg, comp, hdev) <= TOLP, dev=max(neg, comp, hdev), tol=TOLP, sig=sig, nt=nt, mech=f"state_exclusion:invalid-povm[{pd}]",
               detail={"neg": neg, "completeness": comp, "herm": hdev})
